@@ -41,7 +41,7 @@ setup_worker = common.setup_worker
 
 def cases(tier, seed):
   out = []
-  nds = 1 if tier == 'quick' else 5
+  nds = 1 if tier == 'quick' else 25
   for name in E.ALL:
     dss = common.ds_specs(seed, 'C06' + name, nds, dmax=4, dmin=2)
     for ds in dss:
